@@ -422,10 +422,21 @@ func streamTimeout(c *Ctx) {
 			timeoutOp(c, "gtmo.serve "+hx([]byte(s)))
 		}
 	}
-	connectHeaders := []string{"0", "1", "5", "05", "0000000005", "00000000005", "9999999999", "10000000000", "99999999999", "-5", "+5", "-999999999", "+999999999", "1.5", "5ms", " 5", "5 ", "abc", "0x10", "1e3", "١٢", "-", "+", "1_000"}
-	for i := 0; i < 300; i++ {
+	connectHeaders := []string{"0", "1", "5", "05", "0000000005", "00000000005", "9999999999", "10000000000", "99999999999", "-5", "+5", "-999999999", "+999999999", "1.5", "5ms", " 5", "5 ", "abc", "0x10", "1e3", "١٢", "-", "+", "1_000",
+		"5,000", "1000,abc", "1000, 2000", "250,", ",250", "5;q=1", "5,5", "1000,1000", "30000, 30000", "5\t6", "5/1", "5:00", "5'", "5e", "5m"}
+	for i := 0; i < 400; i++ {
 		var s string
-		switch r.Intn(3) {
+		switch r.Intn(4) {
+		case 3: // a decimal prefix, one foreign byte, anything
+			digits := 1 + r.Intn(10)
+			for j := 0; j < digits; j++ {
+				s += string(byte('0' + r.Intn(10)))
+			}
+			s += string(",;:/|&=eE.'\"mMsS"[r.Intn(16)])
+			for j := r.Intn(5); j > 0; j-- {
+				s += string("0123456789, abc"[r.Intn(15)])
+			}
+			s = strings.TrimSpace(s)
 		case 0:
 			digits := 1 + r.Intn(10)
 			for j := 0; j < digits; j++ {
@@ -539,6 +550,31 @@ func timeoutReuseProbes(c *Ctx) {
 			desc := fmt.Sprintf("%s unary call #%d with one reused Request value, deadline %v", proto, i+1, d)
 			if len(vals) != 1 || !ok || ms > d.Milliseconds() {
 				c.Fail("tmo-reuse-extends", desc, fmt.Sprint(vals), "the request must carry exactly one timeout, no longer than this call's deadline")
+			}
+		}
+		// (1b) the Request value went through a unary call first and is then used for a
+		// server-streaming call with a tighter deadline: the timeout a handler honours (the first
+		// value of the header) is this call's
+		{
+			cap := &captureClient{}
+			cl := connect.NewClient[emptypb.Empty, emptypb.Empty](cap, "http://h/s/m", protoOptsPB(proto)...)
+			req := connect.NewRequest(&emptypb.Empty{})
+			ctx, cancel := context.WithTimeout(context.Background(), time.Hour)
+			_, _ = cl.CallUnary(ctx, req)
+			cancel()
+			cap.header = nil
+			ctx, cancel = context.WithTimeout(context.Background(), 5*time.Second)
+			if s, err := cl.CallServerStream(ctx, req); err == nil {
+				for s.Receive() {
+				}
+				_ = s.Close()
+			}
+			cancel()
+			vals, ms, ok := timeoutMillis(cap.header, grpc)
+			c.Count("tmo-reuse")
+			desc := fmt.Sprintf("%s server-streaming call (deadline 5s) with a Request value used before for a unary call (deadline 1h)", proto)
+			if len(vals) == 0 || !ok || ms > 5000 {
+				c.Fail("tmo-reuse-extends", desc, fmt.Sprint(vals), "the timeout the handler honours must be no longer than this call's deadline")
 			}
 		}
 		// (2) the deadline comes from a client interceptor
